@@ -4,6 +4,7 @@ import (
 	"go/ast"
 	"go/types"
 	"sort"
+	"strings"
 )
 
 func init() {
@@ -109,4 +110,172 @@ func ruleNoCachedCollection(c *Ctx) {
 		seen[key] = true
 		c.bad(key, r.sel.Pos(), "%s, which runs when a fence is evaluated, reads %s — a collection pointer stored when the fence's scan writer was created; after DROP, RENAME or the last DEL of that key the keyspace holds another collection, and the fence keeps searching the detached one (neighbours that no longer exist are reported, real ones are missed)", r.fn.Obj.Name(), exprStr(r.sel))
 	}
+}
+
+func init() {
+	register(&Rule{ID: "R20.position-needs-spatial", Props: []string{"C20", "C05"}, Floor: 2,
+		Text: "a stored value without a position (SET … STRING) answers Center() and Rect() with the zero point and Distance() with 0, and the previous value of an id may be such a string. In the functions reachable from the fence evaluation entry, every use of one of these positional accessors on the geometry of an expression that may denote the previous object — the field commandDetails.old, or a parameter that receives it at some call — is dominated by an objIsSpatial / IsSpatial test of that same expression; otherwise the previous value is treated as an object at 0N 0E: neighbours of that point are reported 'faraway' by a roaming fence, and the segment from it to the new position 'crosses' static fences",
+		Run:  rulePositionNeedsSpatial})
+}
+
+func rulePositionNeedsSpatial(c *Ctx) {
+	entry := c.Func("internal/server", "", "FenceMatch")
+	old := c.Field("internal/server", "commandDetails", "old")
+	if entry == nil || old == nil {
+		c.und("anchors", 0, "FenceMatch or commandDetails.old not found")
+		return
+	}
+	reach := map[*types.Func]*FuncInfo{entry.Obj: entry}
+	work := []*FuncInfo{entry}
+	for len(work) > 0 {
+		fi := work[len(work)-1]
+		work = work[:len(work)-1]
+		info := fi.Info()
+		ast.Inspect(fi.Decl.Body, func(n ast.Node) bool {
+			if id, ok := n.(*ast.Ident); ok {
+				if f, ok := info.Uses[id].(*types.Func); ok && reach[f] == nil {
+					if g := c.FuncOf(f); g != nil && g.Pkg == fi.Pkg && g.Decl.Body != nil {
+						reach[f] = g
+						work = append(work, g)
+					}
+				}
+			}
+			return true
+		})
+	}
+	// parameters that may receive the previous object (fixpoint over the calls of the closure)
+	mayBeOld := map[types.Object]bool{}
+	isOldExpr := func(info *types.Info, e ast.Expr) bool {
+		e = ast.Unparen(e)
+		if selField(info, e) == old {
+			return true
+		}
+		if id, ok := e.(*ast.Ident); ok && mayBeOld[info.ObjectOf(id)] {
+			return true
+		}
+		return false
+	}
+	for changed := true; changed; {
+		changed = false
+		for _, fi := range reach {
+			info := fi.Info()
+			ast.Inspect(fi.Decl.Body, func(n ast.Node) bool {
+				call, ok := n.(*ast.CallExpr)
+				if !ok {
+					return true
+				}
+				g := callee(info, call)
+				if g == nil || reach[g] == nil {
+					return true
+				}
+				sig := g.Type().(*types.Signature)
+				for i, a := range call.Args {
+					if i < sig.Params().Len() && isOldExpr(info, a) && !mayBeOld[sig.Params().At(i)] {
+						mayBeOld[sig.Params().At(i)] = true
+						changed = true
+					}
+				}
+				return true
+			})
+		}
+	}
+	positional := map[string]bool{"Center": true, "Rect": true, "Distance": true}
+	n := 0
+	var names []string
+	byName := map[string]*FuncInfo{}
+	for f, g := range reach {
+		names = append(names, funcName(f))
+		byName[funcName(f)] = g
+	}
+	sort.Strings(names)
+	for _, nm := range names {
+		fi := byName[nm]
+		info := fi.Info()
+		fgs := map[*ast.BlockStmt]*FlowGraph{}
+		graph := func(body *ast.BlockStmt) *FlowGraph {
+			if fgs[body] == nil {
+				fgs[body] = newFlowGraph(info, body)
+			}
+			return fgs[body]
+		}
+		spatialAt := func(fg *FlowGraph, l Loc, e ast.Expr) (bool, string) {
+			for _, f := range fg.DominatingFacts(l) {
+				if f.Neg {
+					continue
+				}
+				call, ok := ast.Unparen(f.E).(*ast.CallExpr)
+				if !ok {
+					continue
+				}
+				g := callee(info, call)
+				if g == nil {
+					continue
+				}
+				switch {
+				case g.Name() == "objIsSpatial" && len(call.Args) == 1:
+					if gc, ok := ast.Unparen(call.Args[0]).(*ast.CallExpr); ok {
+						if se, ok := ast.Unparen(gc.Fun).(*ast.SelectorExpr); ok && se.Sel.Name == "Geo" && sameExpr(info, se.X, e) {
+							return true, "dominated by objIsSpatial(" + exprStr(e) + ".Geo())"
+						}
+					}
+				case g.Name() == "IsSpatial":
+					if se, ok := ast.Unparen(call.Fun).(*ast.SelectorExpr); ok && sameExpr(info, se.X, e) {
+						return true, "dominated by " + exprStr(e) + ".IsSpatial()"
+					}
+				}
+			}
+			return false, ""
+		}
+		ord := map[string]int{}
+		ast.Inspect(fi.Decl.Body, func(x ast.Node) bool {
+			call, ok := x.(*ast.CallExpr)
+			if !ok {
+				return true
+			}
+			se, ok := ast.Unparen(call.Fun).(*ast.SelectorExpr)
+			if !ok || !positional[se.Sel.Name] {
+				return true
+			}
+			// E.Geo().M(…) or E.M(…) (Object.Rect) with E possibly the previous object
+			var e ast.Expr
+			if gc, ok := ast.Unparen(se.X).(*ast.CallExpr); ok {
+				if gse, ok := ast.Unparen(gc.Fun).(*ast.SelectorExpr); ok && gse.Sel.Name == "Geo" {
+					e = gse.X
+				}
+			} else {
+				e = se.X
+			}
+			if e == nil || !isOldExpr(info, e) {
+				return true
+			}
+			n++
+			base := nm + "→" + exprStr(se.X) + "." + se.Sel.Name + "()"
+			ord[base]++
+			key := base
+			if ord[base] > 1 {
+				key = base + "#" + strings.Repeat("I", ord[base])
+			}
+			body := fi.Decl.Body
+			lit := enclosingFuncLit(c.Program, call)
+			if lit != nil {
+				body = lit.Body
+			}
+			fg := graph(body)
+			l := fg.LocOfOuter(call)
+			okk, why := false, ""
+			if l.Valid() {
+				okk, why = spatialAt(fg, l, e)
+			}
+			if !okk && lit != nil {
+				// inside a literal: what dominates the literal in the enclosing function holds as well
+				ofg := graph(fi.Decl.Body)
+				if ol := ofg.LocOfOuter(lit); ol.Valid() {
+					okk, why = spatialAt(ofg, ol, e)
+				}
+			}
+			c.check(okk, key, call.Pos(), why, "the position of "+exprStr(e)+", which may be the previous value of the id, is used although nothing establishes that it has one: for a value stored with SET … STRING, Center() and Rect() are the zero point and Distance() is 0, so the fence treats it as an object at 0N 0E (neighbours of that point reported 'faraway', a 'cross' for fences between that point and the new position)")
+			return true
+		})
+	}
+	c.stat("positional_uses_of_the_previous_object", n)
 }
